@@ -1159,4 +1159,122 @@ example : (wrapExport (L := Nat) (α := Nat) (dropsInternal false)
       ⟨false, false, true⟩).cols = [("Y", [1]), ("_h", [3])] ∧
     NamesOk ["Y", "_h"] := ⟨by decide, by decide, ⟨by decide, by decide, by decide⟩⟩
 
+/-! ## Non-vacuity (review): the theorems with the most hypotheses, invoked at concrete instances -/
+
+/-- A model with a variable, its underscore twin and a member-like name, two periods. -/
+def exStore : Store Nat Nat :=
+  ⟨[3, 4], ["status", "iterations", "Y", "_Y", "size"], ["Y", "_Y", "size"],
+   fun k => if k = "Y" then [1, 2] else if k = "_Y" then [3, 4] else if k = "size" then [5, 6]
+     else if k = "status" then [0, 0] else [9, 9]⟩
+theorem exStore_ok : NamesOk exStore.names := ⟨by decide, by decide, by decide⟩
+theorem twin_ok : NamesOk twinObj.names := ⟨by decide, by decide, by decide⟩
+theorem exCtor_ok : CtorNamesOk exStore.names := by unfold CtorNamesOk; decide
+
+-- dataframe_columns / dataframe_columns_nodup / dataframe_cells / dataframe_internal_iff: `h` (and hk)
+example : (modelTable exStore true false false).cols.map Prod.fst = ["Y", "size", "status"] :=
+  (dataframe_columns exStore true false false exStore_ok).trans (by decide)
+example : dictGet (modelTable exStore true true true).cols "_Y" = some [3, 4] :=
+  dataframe_cells exStore true true true exStore_ok "_Y" (by decide)
+example : "_Y" ∉ (modelTable exStore true true false).cols.map Prod.fst :=
+  fun hm => by
+    have := (dataframe_internal_iff exStore true true false exStore_ok "_Y" (by decide)).1 hm
+    revert this; decide
+-- dataframe_rows: h, hlen
+theorem exStore_len (k : String) : (exStore.data k).length = exStore.span.length := by
+  show (if k = "Y" then [1, 2] else if k = "_Y" then [3, 4] else if k = "size" then [5, 6]
+     else if k = "status" then [0, 0] else [9, 9] : List Nat).length = 2
+  repeat' split
+  all_goals rfl
+example : (modelTable exStore true true true).index = [3, 4] ∧
+    ∀ c ∈ (modelTable exStore true true true).cols, c.2.length = (modelTable exStore true true true).index.length :=
+  dataframe_rows exStore true true true exStore_ok (fun k _ => exStore_len k)
+-- export_reads_own_series: h, hsub, hk; the premises of its second part hold too (the entry exists, and the series in
+-- the `__dict__` of `twinObj` are pairwise distinct, so a value determines its key)
+example : dictGet (modelTable twinObj.toStore false false true).cols "_Y" = some [3, 4] :=
+  (export_reads_own_series twinObj false false true twin_ok (by decide) "_Y" (by decide)).1.trans (by decide)
+example : dictGet twinObj.dict (storageKey "_Y") = some [3, 4] ∧ (twinObj.dict.map Prod.snd).Nodup ∧
+    (twinObj.dict.map Prod.fst).Nodup := by decide
+-- container_reads_own_series / toObj_getItem: h, hk
+example : dictGet (containerTable twinObj.toStore).cols "size" = some [5, 6] :=
+  (container_reads_own_series twinObj (by decide) "size" (by decide)).trans (by decide)
+example : getItem exStore.toObj "_Y" = some [3, 4] :=
+  (toObj_getItem exStore (by decide) "_Y" (by decide)).trans (by decide)
+
+-- linker_tables (hnd, hname) / linker_tables_lookup (hnd, hm) / linker_tables_count (hnd): two submodels
+def exSubs : List (String × Store Nat Nat) :=
+  [("A", ⟨[0], [], ["Y"], fun _ => [1]⟩), ("B", ⟨[0], [], ["Z", "_w"], fun _ => [2]⟩)]
+def exLinker : Store Nat Nat := ⟨[0], [], ["T"], fun _ => [5]⟩
+example : (linkerTables "_" exLinker exSubs true false false).length = 2 + 1 :=
+  (linker_tables "_" exLinker exSubs true false false (by decide) (by decide)).2
+example : dictGet (linkerTables "_" exLinker exSubs true false false) "B" =
+    some (modelTable ⟨[0], [], ["Z", "_w"], fun _ => [2]⟩ true false false) :=
+  (linker_tables_lookup "_" exLinker exSubs true false false (by decide) "B" _ (by simp [exSubs, dictGet])).2
+example : (linkerTables "A" exLinker exSubs true false false).length = 2 :=
+  (linker_tables_count "A" exLinker exSubs true false false (by decide)).trans (by decide)
+
+-- from_dataframe_roundtrip / _roundtrip_id (h, hN, hsub, hkw, hcast) / no_kwargsClash / from_dataframe_reads_own_series
+example : ∃ m', fromTable (fun x : Nat => x) ⟨0, 7, 8⟩ ["Y", "_Y"] (modelTable exStore true true true) = some m' ∧
+    m'.span = [3, 4] ∧ ∀ k ∈ ["Y", "_Y"], k ∈ exportNames exStore.names true → m'.data k = exStore.data k :=
+  from_dataframe_roundtrip_id exStore (fun x => x) ⟨0, 7, 8⟩ ["Y", "_Y"] true true true exStore_ok (by decide) (by decide)
+    exCtor_ok (fun _ _ _ _ => rfl)
+example : ∃ m', fromTable (fun x : Nat => x + 100) ⟨0, 7, 8⟩ ["size", "Y"] (modelTable exStore false false false) = some m' ∧
+    m'.span = exStore.span ∧ m'.names = ["size", "Y"] ∧
+    (∀ k ∈ ["size", "Y"], k ∈ exportNames exStore.names false → m'.data k = (exStore.data k).map (· + 100)) ∧
+    m'.data "status" = List.replicate exStore.span.length 7 ∧ m'.data "iterations" = List.replicate exStore.span.length 8 :=
+  from_dataframe_roundtrip exStore (· + 100) ⟨0, 7, 8⟩ ["size", "Y"] false false false exStore_ok (by decide) (by decide)
+    exCtor_ok
+example : kwargsClash (modelTable exStore true true true).cols = false :=
+  no_kwargsClash exStore true true true exStore_ok exCtor_ok
+example : ∃ m', fromTable (fun x : Nat => x) ⟨0, 7, 8⟩ ["Y", "_Y", "size"] (modelTable twinObj.toStore false false true) =
+    some m' ∧ m'.span = twinObj.span ∧ ∀ k ∈ ["Y", "_Y", "size"], k ∈ exportNames twinObj.names true →
+      dictGet m'.toObj.dict (storageKey k) = some (((dictGet twinObj.dict (storageKey k)).getD []).map fun x => x) :=
+  from_dataframe_reads_own_series twinObj (fun x => x) ⟨0, 7, 8⟩ ["Y", "_Y", "size"] false false true twin_ok (by decide)
+    (by decide) (by decide) (by unfold CtorNamesOk; decide)
+
+-- symbols: symbols_roundtrip (hv) / codeDecoder_ok_of_markers (h1 … h5, a coercion other than the installed one) /
+-- present_strings_roundtrip (h) / normalising_decoder_breaks_roundtrip (h)
+example : tableToSymbols codeDecoder (symbolsToTable installed witnessYC) = some (witnessYC.map Symbol.toPy) :=
+  symbols_roundtrip witnessYC (by decide)
+def exCoercion : Coercion := ⟨.none, .nan, .none, .nan, fun i => .int i⟩
+example : DecoderOk codeDecoder exCoercion :=
+  codeDecoder_ok_of_markers exCoercion rfl rfl rfl rfl (fun _ => Or.inl rfl)
+example : RoundTrips codeDecoder exCoercion witnessYC :=
+  symbols_roundtrip_of_decoderOk codeDecoder exCoercion
+    (codeDecoder_ok_of_markers exCoercion rfl rfl rfl rfl (fun _ => Or.inl rfl)) witnessYC (by decide)
+example : ([⟨.str "Y", 3, .int 0, .int 0, .str "Y[t] = C[t]", .str "self._Y[t] = self._C[t]"⟩,
+      ⟨.str "C", 2, .int 0, .int 0, .none, .none⟩] : List PySymbol).length = witnessYC.length :=
+  (present_strings_roundtrip installed witnessYC _ (by decide)).1
+example : ¬ RoundTrips { codeDecoder with code := rstripOne } installed [full "x = 1 " 0] :=
+  (normalising_decoder_breaks_roundtrip { codeDecoder with code := rstripOne } installed "x = 1 "
+    (Or.inr (Or.inr (by decide)))).2
+
+-- flags: export_depends_on_truthiness_only (hs, hi, hn) / export_args_depend_on_value_only with omitted keywords /
+-- identity_test_breaks_export (h, ht, hf, hl) / from_dataframe_strict_* premises
+example : modelTableF exStore (.npbool true) (.int 0) (.str "x") = modelTableF exStore (.int 5) (.bool false) (.bool true) :=
+  export_depends_on_truthiness_only exStore _ _ _ _ _ _ (by decide) (by decide) (by decide)
+example : modelTableA exStore none (some (.int 1)) none = modelTableA exStore (some (.npbool true)) none (some (.int 0)) :=
+  export_args_depend_on_value_only exStore _ _ _ _ _ _ (by decide) (by decide) (by decide)
+example : identityTable flagLabel exStore (.int 1) (.bool false) (.bool true) ≠
+    modelTableF exStore (.int 1) (.bool false) (.bool true) :=
+  identity_test_breaks_export flagLabel exStore exStore_ok (.int 1) (.bool true) (by decide) (by decide) (by decide)
+example : fromTableStrict (fun x : Nat => x) ⟨0, 7, 8⟩ ["Y", "_Y", "size"] (some (.npbool true))
+      (modelTable exStore false false true) =
+    fromTable (fun x : Nat => x) ⟨0, 7, 8⟩ ["Y", "_Y", "size"] (modelTable exStore false false true) :=
+  from_dataframe_strict_data_columns _ _ _ _ _ (by decide)
+
+-- mixins: wrapChain_forwards (h) / wrapChain_dropping_internal_differs_iff (hws, h) / internal_flag_matters_iff (h)
+example : wrapChain [mixinWrapper false [("Y", "GDP")] .alias, mixinWrapper false [] .tracer] (modelExport exStore) =
+    modelExport exStore :=
+  wrapChain_forwards _ _ (by
+    intro w hw
+    simp only [List.mem_cons, List.not_mem_nil, or_false] at hw
+    rcases hw with rfl | rfl <;> exact ⟨fun _ => rfl, fun _ => rfl⟩)
+example : modelTable exStore true true false ≠ modelTable exStore true true true :=
+  (internal_flag_matters_iff exStore true true exStore_ok).2 ⟨"_Y", by decide, by decide⟩
+example : ∃ f, wrapChain [mixinWrapper false [] .tracer] (wrapExport (dropsInternal false) (modelExport exStore)) f ≠
+    modelExport exStore f :=
+  (wrapChain_dropping_internal_differs_iff [mixinWrapper false [] .tracer]
+    (by intro w hw; simp only [List.mem_cons, List.not_mem_nil, or_false] at hw; subst hw; exact ⟨fun _ => rfl, fun _ => rfl⟩)
+    false exStore exStore_ok).2 ⟨"_Y", by decide, by decide⟩
+
 end Fsic.C19
